@@ -715,6 +715,21 @@ class Agg:
                 if not ok:
                     return {"reproduced": True, "rules_file": rules, "data": '{"a":\n 1}\n', "expected": {"first": s1, "second": s2, "file": exp_file},
                             "observed": rep, "exit": rc, "cmd": "cfn-guard validate -r r.guard -d d0.json --structured -o json --show-summary none"}
+        # the same NAME defined twice (legal): the file status still folds over both definitions
+        for s1 in ("PASS", "FAIL", "SKIP"):
+            for s2 in ("PASS", "FAIL", "SKIP"):
+                d = {"PASS": "{\n  a == 1\n}", "FAIL": "{\n  a == 2\n}", "SKIP": "when a == 2 {\n  a == 1\n}"}
+                rules = f"rule same {d[s1]}\nrule same {d[s2]}\n"
+                rc, rep, err = self.run_structured(exe, rules, ['{"a":\n 1}\n'])
+                exp_file = "FAIL" if "FAIL" in (s1, s2) else ("PASS" if "PASS" in (s1, s2) else "SKIP")
+                if not (rep and isinstance(rep, list) and rep):
+                    tried.append({"same-name statuses": [s1, s2], "ok": None, "note": "no report", "exit": rc})
+                    continue
+                ok = rep[0].get("status") == exp_file and rc == (19 if exp_file == "FAIL" else 0)
+                tried.append({"same-name statuses": [s1, s2], "ok": ok})
+                if not ok:
+                    return {"reproduced": True, "rules_file": rules, "data": '{"a":\n 1}\n', "expected": {"file": exp_file},
+                            "observed": rep[0].get("status"), "exit": rc}
         return {"reproduced": False, "tried": tried}
 
     def replay_when_block(self, cand):
